@@ -9,7 +9,7 @@ from scipy import stats as sps
 from vf import gen, ref, popgen, stats
 
 ID = 'C06'
-BUDGET = {'quick': 320, 'thorough': 6000}
+BUDGET = {'quick': 320, 'thorough': 20000}
 RULE = (
     'Hypothesis draws either an error-model case (kind in {gauss,mult,cm,lognorm}, optionally wrapped in a '
     'ReducedErrorModel with a fixed subset, 1-5 pairwise distinct positive model outputs in [0.1,50], scales '
